@@ -171,6 +171,8 @@ def closure_spec(F, clo_term, parent_spec_of, variants=None):
     """analyse a flat_map closure |r| RankPair::V(captured.., r).into_iter().map(|cp| (cp, prob)).  `variants` ({spec of an
     enum-valued place of the enclosing function: variant name} on the enclosing path) selects the arm of a `match` on a captured
     rank pair inside the closure (one closure shared by arms that were merged)."""
+    while clo_term[0] == "cast" and clo_term[1] == "Subtype":
+        clo_term = clo_term[2]          # (an opaque `impl Iterator` return type in the closure's signature being revealed)
     if not (clo_term[0] == "agg" and clo_term[1].startswith("closure:")):
         return None
     path = clo_term[1][len("closure:"):]
@@ -350,9 +352,80 @@ def rule_expansion(ctx, F):
                                 vs_[sp_] = I.variant_by_discr(F, tokmodel.RANK_PAIR, lab_)
                     sites.append((bi, t, pp_, vs_))
     seen_ = set()
+    list_singles = 0
+
+    def tail_weight(clo):
+        """spec of w when clo is |rp| rp.into_iter().map(move |cp| (cp, w)) (the combos of each listed rank pair, weighted), else None"""
+        clo = P.strip(clo, calls=False)
+        if not (clo[0] == "agg" and clo[1].startswith("closure:") and clo[1][len("closure:"):] in F.fns):
+            return None
+        cf = F.fns[clo[1][len("closure:"):]]
+        if cf.cfg.has_loops() or any(b_["term"]["k"] == "switch" for i_, b_ in enumerate(cf.blocks) if i_ in cf.cfg.reachable):
+            return None
+        r = P.strip(P.Prov(cf).local(0), calls=False)
+        if not (r[0] == "call" and r[1].rsplit("::", 1)[-1] == "map" and len(r[2]) == 2):
+            return None
+        s0 = P.strip(r[2][0], calls=False)
+        if not (s0[0] == "call" and s0[1] == f"<{tokmodel.RANK_PAIR} as std::iter::IntoIterator>::into_iter" and P.strip(s0[2][0]) == ("param", 2)):
+            return None
+        inner = P.strip(r[2][1], calls=False)
+        if not (inner[0] == "agg" and inner[1].startswith("closure:") and inner[1][len("closure:"):] in F.fns):
+            return None
+        it_ = P.Prov(F.fns[inner[1][len("closure:"):]]).local(0)
+        if not (it_[0] == "agg" and it_[1] == "tuple" and len(it_[2]) == 2 and P.strip(it_[2][0]) == ("param", 2)):
+            return None
+        w = P.strip(it_[2][1])
+        if not (w[0] == "field" and P.strip(w[1]) == ("param", 1) and w[2] < len(inner[2])):
+            return None
+        oc = P.strip(inner[2][w[2]])
+        if not (oc[0] == "field" and P.strip(oc[1]) == ("param", 1) and oc[2] < len(clo[2])):
+            return None
+        return spec(clo[2][oc[2]])
     for bi, t, pr_s, vs_ in sites:
         pr_site = pr_s
         src = P.strip(pr_site.operand(t["args"][0]), calls=False)
+        # the expansion through a list of rank pairs: each arm collects `RankRange::ctor(a, b).into_iter().map(pair_of)` into a
+        # Vec<RankPair> (one pair for a single-rank-pair token), one shared tail turns every listed pair into its weighted combos
+        lst = P.strip(src[2][0], calls=False) if src[0] == "call" and src[1].endswith("IntoIterator>::into_iter") and src[2] else None
+        if lst is not None and lst[0] == "call" and lst[1].rsplit("::", 1)[-1] == "collect" and len(lst[2]) == 1 and pr_s is not pr:
+            mp_ = P.strip(lst[2][0], calls=False)
+            rr_ = P.strip(mp_[2][0], calls=False) if mp_[0] == "call" and mp_[1].rsplit("::", 1)[-1] == "map" and len(mp_[2]) == 2 else None
+            if rr_ is not None and rr_[0] == "call" and rr_[1].endswith("IntoIterator>::into_iter") and rr_[2]:
+                rr_ = P.strip(rr_[2][0], calls=False)
+            if rr_ is not None and rr_[0] == "call" and rr_[1].startswith("card::rank_range::RankRange::") and len(rr_[2]) == 2:
+                ctor_t = P.strip(mp_[2][1], calls=False)
+                if ctor_t[0] == "fn" and ctor_t[1].rpartition("::")[0] == tokmodel.RANK_PAIR:
+                    cs_ = (ctor_t[1].rsplit("::", 1)[-1], ["item"], None)
+                else:
+                    cs_ = closure_spec(F, ctor_t, spec, vs_)
+                w_ = tail_weight(pr_site.operand(t["args"][1]))
+                if cs_ is None or (cs_[2] is not None and cs_[2] != ("follows",)) or w_ is None:
+                    raise Unrecognised(rule, "rank pairs listed by something else than RankRange::ctor(a, b).map(|r| RankPair::V(.., r)), or the tail "
+                                       "is not |rp| rp.into_iter().map(|cp| (cp, weight))", it.path, it.blocks[bi]["line"])
+                cand_ = (it.blocks[bi]["line"], rr_[1].rsplit("::", 1)[-1], spec(rr_[2][0]), spec(rr_[2][1]), cs_[0], tuple(cs_[1]), w_)
+                if cand_ not in seen_:
+                    seen_.add(cand_)
+                    cands.append(cand_[:5] + (list(cs_[1]), w_))
+                continue
+        if lst is not None and lst[0] == "call" and lst[1].rsplit("::", 1)[-1] == "box_assume_init_into_vec_unsafe" and pr_s is not pr:
+            # `vec![rank_pair]` handed to the same tail: the single-rank-pair token
+            one_ = []
+            for b_ in sorted(set(pr_site.fn.cfg.reachable) & set(getattr(pr_site, "on_path", set()) or pr_site.fn.cfg.reachable)):
+                for s_ in it.blocks[b_]["stmts"]:
+                    if s_["k"] == "assign" and "agg" in s_["rv"] and isinstance(s_["rv"]["agg"], dict) and "array" in s_["rv"]["agg"] \
+                            and s_["rv"]["agg"]["array"].startswith(tokmodel.RANK_PAIR) and len(s_["rv"]["ops"]) == 1:
+                        one_.append(spec(pr_site.operand(s_["rv"]["ops"][0])))
+            w_ = tail_weight(pr_site.operand(t["args"][1]))
+            if one_ == ["<SingleRankPair>.0"] or (len(set(one_)) == 1 and one_[0] == "<SingleRankPair>.0"):
+                list_singles += 1 if ("single", bi) not in seen_ else 0
+                if ("single", bi) not in seen_:
+                    seen_.add(("single", bi))
+                    if w_ == "weight":
+                        ctx.ok(rule, {"token": "SingleRankPair", "pair": "as given", "weight": "weight", "form": "listed"}, sample=True)
+                    else:
+                        ctx.violation(rule, f"{it.path}|SingleRankPair", "a single rank pair does not expand to its combos with the token's weight",
+                                      fn=it.path, file=it.file, line=it.blocks[bi]["line"])
+                continue
         # RankRange::<ctor>(a, b).into_iter()
         if src[0] == "call" and src[1].endswith("IntoIterator>::into_iter") and src[2]:
             src = P.strip(src[2][0], calls=False)
@@ -481,6 +554,7 @@ def rule_expansion(ctx, F):
                 else:
                     ctx.violation(rule, f"{it.path}|SingleCardPair", "a card-pair token does not expand to (that pair, the token's weight)",
                                   fn=it.path, file=it.file, line=s_["line"])
+    singles += list_singles
     if singles != 2:
         raise Unrecognised(rule, f"{singles} single-token arms recognised, expected 2", it.path, it.line)
     # the expansion must not look at the weight except to copy it: a branch on the weight drops or alters combos of
